@@ -426,16 +426,18 @@ def wfAnd (strict : Bool) (cs : List PTree) : Bool :=
      (!strict || !(classify cs).2.isEmpty))
 
 mutual
+/-- `strict`: the node's parent may need the empty set from it.  True below a parallel or an OR node; a choice hands
+its own set to one child, so below a choice the flag is the choice's own -/
 def wfT (strict : Bool) : PTree → Bool
   | .leaf _ => true
   | .tau => true
-  | .node .and cs => wfAnd strict cs && wfL cs
-  | .node .xor cs => wfL cs
-  | .node .or cs => wfL cs
-  | .node .other cs => wfL cs
-def wfL : List PTree → Bool
+  | .node .and cs => wfAnd strict cs && wfL true cs
+  | .node .xor cs => wfL strict cs
+  | .node .or cs => wfL true cs
+  | .node .other cs => wfL true cs
+def wfL (strict : Bool) : List PTree → Bool
   | [] => true
-  | c :: cs => wfT true c && wfL cs
+  | c :: cs => wfT strict c && wfL strict cs
 end
 
 end O2P.Gate
